@@ -91,11 +91,42 @@ package encoder
 //@ modifies *
 //@ property C18
 
-// The version 1 converter is not swept yet: callers see this assumed
-// (unverified) contract; C18's claim excludes it.
+// The version 1 converter keeps this assumed contract for C18 (its two
+// allocations are sized by the decoded function, not by input bytes in hand);
+// convCompFuncV1ToV2 itself is verified panic-free under C11 below.
 //@ func decodeBytecodeV1
 //@ params bc r
 //@ requires bc != nil && r != nil
 //@ modifies *
 //@ trusted
 //@ property C18
+
+// ---------------------------------------------------------------------------
+// C11 / C18: the version 1 converter. Widening the jump-class operands moves
+// every later instruction; the relocation table newPos maps each version 1
+// instruction start to its version 2 offset, and the emitting pass puts every
+// instruction exactly there.
+
+//@ const ugo.OpcodeOperands, opv1.OpcodeOperands
+
+//@ func convCompFuncV1ToV2
+//@ params cf opWidth
+//@ results err
+//@ requires specV1WidthTable(opWidth)
+//@ modifies *
+//@ loop 0 invariant 0 <= i && (hasJump ==> i < len(cf.Instructions))
+//@ loop 1 invariant forall k int :: 0 <= k && k < verifIdx ==> newPos[k] == -1
+//@ loop 2 invariant 0 <= i && i <= len(cf.Instructions) && 0 <= delta && delta <= 4*i
+//@ loop 2 invariant[unset] forall k int :: i <= k && k < len(newPos) ==> newPos[k] == -1
+//@ loop 2 invariant[first] (i == 0 ==> delta == 0) && (i > 0 ==> newPos[0] == 0)
+//@ loop 2 invariant[chain] forall k int :: 0 <= k && k < i && newPos[k] >= 0 ==> specV1Link(cf.Instructions, opWidth, newPos, k, i, i+delta)
+//@ loop 3 split byte cf.Instructions[i]: 12, 13, 14, 15, 34, other
+//@ loop 3 invariant 0 <= i && i <= len(cf.Instructions)
+//@ loop 3 invariant[rows] specV1JumpRows(opWidth)
+//@ loop 3 invariant[alias] verifrt.Fresh(operands) && verifrt.Fresh(instBuf) && verifrt.Disjoint(operands, newPos) && verifrt.Disjoint(newInsts, cf.Instructions)
+//@ loop 3 invariant[table] forall k int :: 0 <= k && k < len(cf.Instructions) && newPos[k] >= 0 ==> specV1Chain(cf.Instructions, opWidth, newPos, k)
+//@ loop 3 invariant[position@C11] newPos[i] == len(newInsts)
+//@ loop 3 invariant[here] i < len(cf.Instructions) ==> specV1Chain(cf.Instructions, opWidth, newPos, i)
+//@ loop 4 invariant verifrt.Fresh(operands) && verifrt.Disjoint(operands, newPos)
+//@ loop 4 invariant[nonneg] forall k int :: verifIdx <= k && k < len(operands) ==> 0 <= operands[k]
+//@ property C11
